@@ -635,6 +635,13 @@ func (st *Stack) compactRange(first, last int, expiration *LogExpirationConfig) 
 
 	lockFile, err = os.OpenFile(st.listFile+".lock", os.O_EXCL|os.O_CREATE|os.O_WRONLY, 0644)
 	if err != nil {
+		if tmpTable != "" {
+			os.Remove(tmpTable)
+		}
+		if os.IsExist(err) {
+			// lost the race for the lock: nothing was changed
+			return false, nil
+		}
 		return false, err
 	}
 	// Only now is the lock ours to remove.
